@@ -222,6 +222,53 @@ static void case_c02f(const drvargs_t *a,long id){
   res_end();
 }
 
+/* ------------------------------------------------------------------ C02, lattice size law (mode c02q, round 8) */
+/* The number of scalar values of a lattice (lookup type 1) codebook is the greatest v with v^dim <= entries.  libvorbis finds it from a floating-point estimate that it
+   then corrects by stepping up or down in a loop; for entry counts at and next to perfect powers the estimate is off by one and the correction has to terminate and land
+   on the right side.  Part A asks the library's own routine for every (dim, k^dim+d), d in -2..2, k^dim < 2^24 (dim 1 and dim > 24 sampled) and compares with the
+   model's integer answer; part B puts such books into real setup headers and runs them through headerin / synthesis_init / clear. */
+#include <stdarg.h>
+#include "codebook.h"
+static void q_mark(const char *fmt,...){ char t[200]; va_list ap; va_start(ap,fmt); vsnprintf(t,sizeof t,fmt,ap); va_end(ap); printf("@ctx %s\n",t); fflush(stdout); }
+static void case_c02q(const drvargs_t *a,long id){
+  rng_t r; rng_seed(&r,a->seed,23,(uint64_t)id);
+  res_begin(id);
+  int dim= (int)(id%26)+1; if(dim==26) dim=(int)rng_range(&r,26,65535);
+  static_codebook sb; memset(&sb,0,sizeof sb); sb.dim=dim; long ncalls=0, bad=0;
+  if(dim==1 || dim>24){
+    for(int i=0;i<4000;i++){ long e= i<8? (long[]){1,2,3,(1L<<24)-1,(1L<<24)-2,(1L<<23),255,256}[i] : (long)rng_range(&r,1,(1L<<24)-1); sb.entries=e;
+      if(i%256==0) q_mark("lattice size dim %d entries %ld",dim,e);
+      long v=_book_maptype1_quantvals(&sb), w=sp_lookup1_values(e,dim); ncalls++; if(v!=w && bad++<3) res_viol("C01","lattice-size-law","dim %d entries %ld: library %ld, specification %ld",dim,e,v,w); }
+  }else{
+    for(long k=1;;k++){ double pw=1; for(int i=0;i<dim;i++) pw*=(double)k; if(pw>=(double)(1L<<24)+2) break; long base=(long)pw;
+      if(k%32==1) q_mark("lattice size dim %d entries near %ld^%d",dim,k,dim);
+      for(int d=-2;d<=2;d++){ long e=base+d; if(e<1||e>=(1L<<24)) continue; sb.entries=e;
+        long v=_book_maptype1_quantvals(&sb), w=sp_lookup1_values(e,dim); ncalls++; if(v!=w && bad++<3) res_viol("C01","lattice-size-law","dim %d entries %ld (%ld^%d%+d): library %ld, specification %ld",dim,e,k,dim,d,v,w); } }
+  }
+  res_eval(ncalls); res_count("lattice_sizes_asked_of_the_library",ncalls);
+  /* part B: the same kind of book inside a setup header */
+  int nprobe= a->thorough?10:5;
+  for(int q=0;q<nprobe;q++){
+    int d2= dim<=24? dim : (int)rng_range(&r,2,12); if(d2==1) d2=(int)rng_range(&r,2,9);
+    long kmax=1; for(;;){ double pw=1; for(int i=0;i<d2;i++) pw*=(double)(kmax+1); if(pw>=(double)(1L<<24)) break; kmax++; }
+    long k=(long)rng_range(&r,1,kmax); double pw=1; for(int i=0;i<d2;i++) pw*=(double)k; long e=(long)pw+(long)rng_range(&r,-1,1); if(e<1) e=1; if(e>=(1L<<24)) e=(1L<<24)-1;
+    sp_setup *S=sp_gen_setup(&r,(int)((id+q)%SP_NPROFILES),0); sp_book_make_lattice(&S->books[0],d2,e);
+    buf_t h[3]; for(int i=0;i<3;i++) buf_init(&h[i]); sp_write_headers(S,&h[0],&h[1],&h[2]);
+    vorbis_info vi; vorbis_comment vc; vorbis_info_init(&vi); vorbis_comment_init(&vc); long ret=0;
+    q_mark("headerin: setup header with a lattice book dim %d entries %ld (%ld^%d%+ld)",d2,e,k,d2,e-(long)pw);
+    for(int i=0;i<3 && ret==0;i++){ ogg_packet op; memset(&op,0,sizeof op); op.packet=h[i].p; op.bytes=(long)h[i].n; op.b_o_s=(i==0); op.packetno=i; ret=vorbis_synthesis_headerin(&vi,&vc,&op); res_eval(1);
+      if(!code_ok(ret)||ret>0) res_viol("C02","return-domain","headerin %ld for a lattice book dim %d entries %ld",ret,d2,e); }
+    res_count(ret?"lattice_headers_refused":"lattice_headers_accepted",1);
+    if(ret==0 && e<=(1L<<18)){ vorbis_dsp_state vd; q_mark("synthesis_init: lattice book dim %d entries %ld",d2,e); long ri=vorbis_synthesis_init(&vd,&vi); res_eval(1);
+      if(ri!=0 && ri!=1 && !code_ok(ri)) res_viol("C02","return-domain","synthesis_init %ld for a lattice book dim %d entries %ld",ri,d2,e);
+      if(ri==0) vorbis_dsp_clear(&vd); }
+    vorbis_comment_clear(&vc); vorbis_info_clear(&vi); vorbis_info_clear(&vi);
+    for(int i=0;i<3;i++) buf_free(&h[i]); sp_free_setup(S);
+  }
+  if(!res_nviol()) res_bucket("lattice|dim%d",dim<=24?dim:25);
+  res_end();
+}
+
 /* ------------------------------------------------------------------ C11 */
 typedef struct { long n; uint64_t h; int retried; } pkout_t;
 /* decode packets [from,to) of list with disturbance; out[j] = what packet j's blockin made available */
@@ -514,7 +561,10 @@ static void c13_file(rng_t *r,const drvargs_t *a,long id){
         case 5: if(ov_pcm_seek(&vf,L+rng_range(r,1,50))==0) {} else nfail++; break;
         default: { int k=(int)rng_range(r,1,6); for(int j=0;j<k;j++) if(ov_read_float(&vf,&pcm,(int)rng_range(r,1,4096),&bs)<=0){ nfail++; break; } } break;
         }
-        if(rng_chance(r,0.1)){ memsrc_clear_fault(&ms); if(rng_chance(r,0.5)) memsrc_fault(&ms,(int)rng_range(r,1,F_NKINDS-1),ms.n_read+rng_range(r,0,5),0); }
+        if(rng_chance(r,0.15)){ memsrc_clear_fault(&ms);   /* re-arm a one-shot fault a few callbacks ahead, counted on the faulted callback's own counter (round 8: it was counted on the read
+                                                                counter for every kind, so seek and tell faults armed here hardly ever fired) */
+          if(rng_chance(r,0.6)){ int nk=(int)rng_range(r,1,F_NKINDS-1); long base= nk==F_SEEK_FAIL? ms.n_seek : nk==F_TELL_FAIL? ms.n_tell : ms.n_read;
+            memsrc_fault(&ms,nk,base+rng_range(r,0,nk==F_SEEK_FAIL?2:5),0); res_count("faults_rearmed_during_the_script",1); } }
       }
       res_eval(1);
       if(ms.n_close!=0) res_viol("C13","close-before-clear","close ran %ld times before ov_clear: %s",ms.n_close,desc);
@@ -543,6 +593,7 @@ int main(int argc,char **argv){
   for(long i=a.first;i<a.first+a.count;i++){
     if(!strcmp(a.mode,"c02")) case_c02(&a,i);
     else if(!strcmp(a.mode,"c02f")) case_c02f(&a,i);
+    else if(!strcmp(a.mode,"c02q")) case_c02q(&a,i);
     else if(!strcmp(a.mode,"c11")) case_c11(&a,i);
     else if(!strcmp(a.mode,"c13")) case_c13(&a,i);
     else { fprintf(stderr,"unknown mode %s\n",a.mode); return 2; }
